@@ -1,3 +1,4 @@
+import Harper.Driver.PatternRules
 import Harper.Driver.Leaves
 import Harper.Driver.Typst
 import Harper.Driver.Rules
@@ -111,7 +112,10 @@ def handlers : List (String × (List String → String)) := [
   ("leafm", Leaves.handleLeafM),
   ("mphrase", Leaves.handleMPhrase),
   ("pnoun", Leaves.handlePNoun),
-  ("mergel", Leaves.handleMergeL)
+  ("mergel", Leaves.handleMergeL),
+  ("prulem", PatternRules.handlePRuleM),
+  ("prule", PatternRules.handlePRule),
+  ("pmtl", PatternRules.handlePMtl)
 ]
 
 def handle (line : String) : String :=
